@@ -16,7 +16,7 @@ RULE = ('pipelines Source >> Transform (>> Transform) with 1-2 cache layers (Cac
 def _shard(args):
     seed, per = args
     return suite_cache.run_shard((seed, per)), suite_lru.run_columns_variants((seed, max(2, per // 3))), \
-        suite_lru.run_columns_faults((seed, per))
+        suite_lru.run_columns_faults((seed, per)), suite_lru.run_columns_ids_alias((seed, max(2, per // 2)))
 
 
 def run(tier, seed, res, lean):
@@ -28,6 +28,8 @@ def run(tier, seed, res, lean):
     # a user failure while a shard is generated: later calls return the cache-free values, on the same and on a rebuilt pipeline
     fault_bad = [b for o in outs for b in o[2][1] if b.get('value') or b['msg'].startswith('raised')]
     fault_cases = sum(o[2][0]['fault_cases'] for o in outs)
+    alias_bad = [b for o in outs for b in o[3][1]]
+    alias_cases = sum(o[3][0]['alias_cases'] for o in outs)
     outs = [o[0] for o in outs]
     stats = merge_stats([o[0] for o in outs])
     model_bad = [b for o in outs for b in o[1]]
@@ -42,6 +44,8 @@ def run(tier, seed, res, lean):
     col_bad = [b for o in col for b in o[1]]
     for b in col_bad[:4]:
         res.violations.append(Violation('c04-columns', b['msg'][:400], {'suite': 'S-COL', **b}))
+    for b in alias_bad[:3]:
+        res.violations.append(Violation('c04-columns-ids', b['msg'][:400], {'suite': 'S-COL', **b}))
     for b in fault_bad[:3]:
         res.violations.append(Violation('c04-columns-after-failure', b['msg'][:400], {'suite': 'S-COL', **b}))
     # S-STOP: a field that raises StopIteration below a column cache / a plain pipeline
@@ -63,7 +67,7 @@ def run(tier, seed, res, lean):
     res.coverage.update({
         'evaluations': stats['calls'] + sum(o[0]['calls'] for o in col), 'distinct_nontrivial': stats['distinct_nontrivial'], 'rule': RULE,
         'programs': stats['histories'], 'disagreements_checked': len(model_bad) + len(c04_bad),
-        'samples': [o[4] for o in outs[:1] if o[4]], 'column_variant_cases': sum(o[0]['variant_cases'] for o in col), 'column_fault_cases': fault_cases,
+        'samples': [o[4] for o in outs[:1] if o[4]], 'column_variant_cases': sum(o[0]['variant_cases'] for o in col), 'column_fault_cases': fault_cases, 'column_ids_cases': alias_cases,
         'distribution': {k: stats[k] for k in ('ops', 'caches', 'errors', 'hits', 'histories')},
         'theorem_instances': {
             'what': 'calls of graphs EXTRACTED from real compiled pipelines on which the driver evaluated the hypotheses of '
